@@ -221,15 +221,19 @@ def mixed_alignment(eng, res, rnd, tier):
     to the same value.  Territory of known finding F43 is classified by its signature, everything else is strict."""
     for _ in range(260 if tier == "quick" else 6000):
         g = defs.Gen(rnd, max_depth=rnd.choice([1, 2, 2, 3]))
-        tree = s1_mixed.with_nested(rnd, g, g.struct())
+        tree = s1_mixed.with_nested(rnd, g, g.struct(), dyn_p=0.6)   # often a dynamically sized member inside the nested structure
         endian, compiled = rnd.choice("<>"), rnd.random() < 0.5
         ptr = rnd.choice(["uint64", "uint32", "uint16", "uint8"])
         for _try in range(4):
             plan, tree2 = defs.hoist(tree, rnd, p=0.7, top_align=rnd.random() < 0.5, mixed=True)
             if s1_mixed.is_mixed(plan):
                 break
-        if not s1_mixed.is_mixed(plan) or has_float(tree2) or has(tree2, lambda x, d, u: x[0] == "sc" and x[1] in ("uleb128", "ileb128")):
-            res.feat("mixed-align:not run (uniform plan, floats or LEB128)")
+        if rnd.random() < 0.3:
+            # directed: an aligned structure with a dynamically sized member, nested in a packed one at an odd offset
+            plan, tree2 = s1_mixed.directed_dynamic(rnd, g)
+            res.feat("mixed-align:directed (dynamic member inside an aligned structure nested in a packed one)")
+        if not s1_mixed.is_mixed(plan) or has(tree2, lambda x, d, u: x[0] == "sc" and x[1] in ("uleb128", "ileb128")):
+            res.feat("mixed-align:not run (uniform plan or LEB128 member: a non-minimal input would be re-encoded shorter)")
             continue
         sess = impl.Session(endian=endian, pointer=ptr)
         try:
